@@ -830,6 +830,11 @@ func genC17(g *Kern, r *Rng, tier string) {
 				}
 			}
 		}
+		// negative counts mirror a part of the positive ones (time.Duration and int are signed; the
+		// error and order clauses are stated for every argument)
+		for i, n := 0, len(ns); i < n; i += 3 {
+			ns = append(ns, -ns[i])
+		}
 		sort.Slice(ns, func(i, j int) bool { return ns[i] < ns[j] })
 		fmt.Fprintf(g.out, "freq %d\n", math.Float64bits(f))
 		for _, n := range ns {
@@ -849,6 +854,9 @@ func genC17(g *Kern, r *Rng, tier string) {
 					ds = append(ds, d+e)
 				}
 			}
+		}
+		for i, n := 0, len(ds); i < n; i += 3 {
+			ds = append(ds, -ds[i])
 		}
 		sort.Slice(ds, func(i, j int) bool { return ds[i] < ds[j] })
 		fmt.Fprintf(g.out, "freq %d\n", math.Float64bits(f))
